@@ -56,6 +56,18 @@ func oracleC01(l *harness.Live) (c01Info, *harness.Failure) {
 	if got := harness.SetOf(ids); !harness.EqualInts(got, info.want) {
 		return info, harness.Failf(describe(l.Doc, info.want), describe(l.Doc, got), "set(Select) differs from the XPath 1.0 denotation")
 	}
+	if reuseSampled(l) {
+		// Select, Select, then Evaluate on the one compiled expression (Evaluate re-arms
+		// state that a second Select finds exhausted, so the order matters)
+		ids2, f := selectWith(e, l)
+		if f != nil && f != cappedFailure {
+			f.Note = "second Select on the same compiled expression: " + f.Note
+			return info, f
+		}
+		if f == nil && !harness.EqualInts(harness.SetOf(ids2), info.want) {
+			return info, harness.Failf(describe(l.Doc, info.want), describe(l.Doc, harness.SetOf(ids2)), "set(Select) of the SECOND Select on the same compiled expression differs from the XPath 1.0 denotation")
+		}
+	}
 	v, f := evalWith(e, l)
 	if f != nil {
 		return info, f
